@@ -7,7 +7,7 @@ FAMILY = "run"
 
 MANIFEST = {
  "level": "other",
- "text": "Proved for every dialect record, guard body, environment, flag set, budget and enclosing machine state about the Gallina model of run_program.rs (Props/C31.v, via the frame lemma of Proofs/MachineFrame.v): from the step that applies the softfork operator to well-formed arguments with a known extension, if the run ever returns to the enclosing operation-stack level (the guard completes) it first reaches exactly the state with nil in place of the operator and its arguments and the environment, operation and guard stacks as they were (C31_guard; C31_guard_run for runs that succeed as a whole), and - unless the operator set is the cost-exempt PreHardFork one (extensions 0/1 under NEW_COST_MODEL) - the cost there is exactly cost-before + declared cost; guard entry fails with SoftforkStackDepth iff LIMIT_SOFTFORK is set and 20 guards are open (C31_depth; 20 nested calibrated guards succeed and the 21st level fails, by computation on the model of ChiaDialect, C31_nested, and on the implementation). The loop's cost constants and the limit 20 are re-read from src/run_program.rs by the translator and pinned. Allocator counters do not exist on the tree-store model; that the real allocator's atom/pair/heap counts return to their entry values is proved on the allocator model as 'a full checkpoint restore resets the counts' (C12) and observed on the implementation by comparing the counts of every guarded run with the same run on the extension-hiding dialect, which never executes the body.",
+ "text": "Proved for every dialect record, guard body, environment, flag set, budget and enclosing machine state about the Gallina model of run_program.rs (Props/C31.v, via the frame lemma of Proofs/MachineFrame.v): from the step that applies the softfork operator to well-formed arguments with a known extension, if the run ever returns to the enclosing operation-stack level (the guard completes) it first reaches exactly the state with nil in place of the operator and its arguments and the environment, operation and guard stacks as they were (C31_guard; C31_guard_run for runs that succeed as a whole), and - unless the operator set is the cost-exempt PreHardFork one (extensions 0/1 under NEW_COST_MODEL) - the cost there is exactly cost-before + declared cost; guard entry fails with SoftforkStackDepth iff LIMIT_SOFTFORK is set and 20 guards are open (C31_depth; 20 nested calibrated guards succeed and the 21st level fails, by computation on the model of ChiaDialect, C31_nested, and on the implementation). The loop's cost constants and the limit 20 are re-read from src/run_program.rs by the translator and pinned. Allocator counters do not exist on the tree-store model; that the real allocator's atom/pair/heap counts (ghost counters included) return to their entry values is proved on the allocator models of C12 for every history enter (checkpoint) - any body of allocator operations that restores only checkpoints newer than the guard's (nested guards, GC roll-backs) - leave (full restore) (C31_counters, through the whole-history simulation C12_history; run_program.rs' checkpoint-at-entry and unconditional restore-at-exit sites are pinned by the translator); the composition of the two models is not proved and is observed on the implementation by comparing the counts of every guarded run with the same run on the extension-hiding dialect, which never executes the body.",
  "note": vlib.NOTE_COMMON + " Level 'other' because the counter clause is proved on the allocator model and observed, not proved for the composed system.",
  "technique": "Coq proof (frame lemma for the stack machine: execution between guard entry and exit) + model/implementation differential run + implementation search (aware vs hiding dialect counters, nesting 19..22, both cost models)",
 }
